@@ -50,7 +50,7 @@ def job_kick_row(res, n, nb, it, axis, b, r, margin, kmax, sparse=False):
             return {'replay': 'kick', 'n': n, 'nb': nb, 'it': it, 'axis': axis, 'bunch': b, 'row': r, 'off': mval(m, o), 'offall': offvals, 'row_data': rd, 'defect': mval(m, d), 'sparse': sparse}
         kcase = [str(c) for c in s.pc if 'off' in str(c)][-1:]
         prove(res, 'generic %s-kick n=%d nb=%d it=%d bunch %d row %d case %s: |sum out - sum in| <= 2e-6*sum|in|' % ('y' if axis else 'x', n, nb, it, b, r, kcase),
-              s.pc, goal, key='kick-conservation', cex_fn=cex)
+              s.pc, goal, key='kick-conservation', cex_fn=cex, timeout_ms=(900000 if sparse else 120000))
     # witnesses: the row's output depends on off; and the obligation machinery can fail (wrong claim sum out = 2 sum in is refuted)
     s = sts[0]; outs = [ex.dom.z(ex.load(s, ocell(i), F32)) for i in range(n)]
     if it >= 2:
